@@ -76,6 +76,10 @@ package channels
 
 //@ type Channels
 //@   nonnil stateMachines, blockIndexCache, progressCache, notifier, migrateStateMachines
+//@ type blockIndexCache
+//@   nonnil values
+//@ type progressCache
+//@   nonnil values
 
 // ---------------------------------------------------------------------------------------------
 // Channels: every mutation of a channel goes through exactly one FSM event (single writer)
@@ -185,3 +189,146 @@ package channels
 //@   modifies c.blockIndexCache.values, c.progressCache.values
 //@ func (*channels.Channels).DataReceived {C07,C08}
 //@   modifies c.blockIndexCache.values, c.progressCache.values
+
+// ---------------------------------------------------------------------------------------------
+// channelState: views over the internal record (C19, C11, C03). WF is the record invariant established
+// by CreateNew (ensures [record]) and preserved by every FSM action (lemma [wf-preserved]).
+
+//@ define [WF]: (r) => len(r.Vouchers) >= 1 && r.Stages != nil
+
+//@ func (channels.channelState).Status {C19}
+//@   ensures [view] result == c.ic.Status
+//@ func (channels.channelState).IsPull {C19}
+//@   ensures [view] result == (c.ic.Initiator == c.ic.Recipient)
+//@ func (channels.channelState).ChannelID {C19}
+//@   requires [roles] (c.ic.Initiator == c.ic.Recipient && c.ic.Responder == c.ic.Sender) || (c.ic.Initiator == c.ic.Sender && c.ic.Responder == c.ic.Recipient)
+//@   ensures [view] result == datatransfer.ChannelID{Initiator: c.ic.Initiator, Responder: c.ic.Responder, ID: c.ic.TransferID}
+//@ func (channels.channelState).OtherPeer {C19}
+//@   requires [self-is-party] c.ic.SelfPeer == c.ic.Sender || c.ic.SelfPeer == c.ic.Recipient
+//@   ensures [view] (result == c.ic.Sender || result == c.ic.Recipient) && (c.ic.Sender != c.ic.Recipient ==> result != c.ic.SelfPeer)
+//@ func (channels.channelState).Voucher {C19,C10}
+//@   ensures [first] len(c.ic.Vouchers) >= 1 ==> result.Type == c.ic.Vouchers[0].Type && result.Voucher == c.ic.Vouchers[0].Voucher.Node
+//@   ensures [none] len(c.ic.Vouchers) == 0 ==> result == datatransfer.TypedVoucher{}
+//@ func (channels.channelState).LastVoucher {C19}
+//@   requires [wf] WF(c.ic)
+//@   ensures [last] result.Type == c.ic.Vouchers[len(c.ic.Vouchers) - 1].Type && result.Voucher == c.ic.Vouchers[len(c.ic.Vouchers) - 1].Voucher.Node
+//@ func (channels.channelState).LastVoucherResult {C19}
+//@   ensures [last] len(c.ic.VoucherResults) >= 1 ==> result.Type == c.ic.VoucherResults[len(c.ic.VoucherResults) - 1].Type &&
+//@       result.Voucher == c.ic.VoucherResults[len(c.ic.VoucherResults) - 1].VoucherResult.Node
+//@   ensures [none] len(c.ic.VoucherResults) == 0 ==> result == datatransfer.TypedVoucher{}
+//@ func (channels.channelState).Vouchers {C19}
+//@   loop 0 invariant [prefix] len(vouchers) == $i && $i >= 0 && $i <= len(c.ic.Vouchers) &&
+//@       (forall j int :: 0 <= j && j < $i ==> vouchers[j].Type == c.ic.Vouchers[j].Type && vouchers[j].Voucher == c.ic.Vouchers[j].Voucher.Node)
+//@   ensures [all] len(result) == len(c.ic.Vouchers) &&
+//@       (forall j int :: 0 <= j && j < len(result) ==> result[j].Type == c.ic.Vouchers[j].Type && result[j].Voucher == c.ic.Vouchers[j].Voucher.Node)
+//@ func (channels.channelState).VoucherResults {C19}
+//@   loop 0 invariant [prefix] len(voucherResults) == $i && $i >= 0 && $i <= len(c.ic.VoucherResults) &&
+//@       (forall j int :: 0 <= j && j < $i ==> voucherResults[j].Type == c.ic.VoucherResults[j].Type && voucherResults[j].Voucher == c.ic.VoucherResults[j].VoucherResult.Node)
+//@   ensures [all] len(result) == len(c.ic.VoucherResults) &&
+//@       (forall j int :: 0 <= j && j < len(result) ==> result[j].Type == c.ic.VoucherResults[j].Type && result[j].Voucher == c.ic.VoucherResults[j].VoucherResult.Node)
+//@ func (channels.channelState).ResponderPaused {C19,C11,C03}
+//@   ensures [view] result == (c.ic.ResponderPaused || c.ic.Status == datatransfer.Finalizing)
+//@ func (channels.channelState).InitiatorPaused {C19,C11}
+//@   ensures [view] result == c.ic.InitiatorPaused
+//@ func (channels.channelState).BothPaused {C19,C11}
+//@   ensures [conjunction] result == (c.ic.InitiatorPaused && (c.ic.ResponderPaused || c.ic.Status == datatransfer.Finalizing))
+//@ func (channels.channelState).SelfPaused {C19,C11}
+//@   ensures [by-role] result == ((c.ic.SelfPeer == c.ic.Initiator) ? c.ic.InitiatorPaused : (c.ic.ResponderPaused || c.ic.Status == datatransfer.Finalizing))
+//@ func (channels.channelState).Stages {C19}
+//@   ensures [never-nil] result != nil
+//@ func (channels.channelState).Queued {C19,C07}
+//@   ensures [view] result == c.ic.Queued
+//@ func (channels.channelState).Sent {C19,C07}
+//@   ensures [view] result == c.ic.Sent
+//@ func (channels.channelState).Received {C19,C07}
+//@   ensures [view] result == c.ic.Received
+//@ func (channels.channelState).QueuedCidsTotal {C19,C07}
+//@   ensures [view] result == c.ic.QueuedBlocksTotal
+//@ func (channels.channelState).SentCidsTotal {C19,C07}
+//@   ensures [view] result == c.ic.SentBlocksTotal
+//@ func (channels.channelState).ReceivedCidsTotal {C19,C07,C10}
+//@   ensures [view] result == c.ic.ReceivedBlocksTotal
+//@ func (channels.channelState).DataLimit {C19,C08}
+//@   ensures [view] result == c.ic.DataLimit
+//@ func (channels.channelState).RequiresFinalization {C19}
+//@   ensures [view] result == c.ic.RequiresFinalization
+//@ func (channels.channelState).TransferID {C19}
+//@   ensures [view] result == c.ic.TransferID
+//@ func (channels.channelState).BaseCID {C19}
+//@   ensures [view] result == c.ic.BaseCid
+//@ func (channels.channelState).Selector {C19}
+//@   ensures [view] result == c.ic.Selector.Node
+//@ func (channels.channelState).Sender {C19}
+//@   ensures [view] result == c.ic.Sender
+//@ func (channels.channelState).Recipient {C19}
+//@   ensures [view] result == c.ic.Recipient
+//@ func (channels.channelState).SelfPeer {C19}
+//@   ensures [view] result == c.ic.SelfPeer
+//@ func (channels.channelState).Message {C19}
+//@   ensures [view] result == c.ic.Message
+//@ func (channels.channelState).TotalSize {C19}
+//@   ensures [view] result == c.ic.TotalSize
+
+//@ lemma [wf-preserved] {C19}: foreach E in (*) :: forall s State :: WF(s) ==> WF(step(s, E))
+//@ lemma [log-append-only] {C19}: foreach E in (*) :: forall s State, j int ::
+//@     len(step(s, E).Vouchers) >= len(s.Vouchers) && len(step(s, E).VoucherResults) >= len(s.VoucherResults) &&
+//@     (0 <= j && j < len(s.Vouchers) ==> step(s, E).Vouchers[j] == s.Vouchers[j]) &&
+//@     (0 <= j && j < len(s.VoucherResults) ==> step(s, E).VoucherResults[j] == s.VoucherResults[j])
+//@ lemma [new-voucher-appends] {C19}: forall s State, v TypedVoucher :: applied(s, NewVoucher, v) ==>
+//@     len(step(s, NewVoucher, v).Vouchers) == len(s.Vouchers) + 1 &&
+//@     step(s, NewVoucher, v).Vouchers[len(s.Vouchers)].Type == v.Type && step(s, NewVoucher, v).Vouchers[len(s.Vouchers)].Voucher.Node == v.Voucher &&
+//@     seqEq(step(s, NewVoucher, v).VoucherResults, s.VoucherResults)
+//@ lemma [new-voucher-result-appends] {C19}: forall s State, v TypedVoucher :: applied(s, NewVoucherResult, v) ==>
+//@     len(step(s, NewVoucherResult, v).VoucherResults) == len(s.VoucherResults) + 1 &&
+//@     step(s, NewVoucherResult, v).VoucherResults[len(s.VoucherResults)].Type == v.Type &&
+//@     step(s, NewVoucherResult, v).VoucherResults[len(s.VoucherResults)].VoucherResult.Node == v.Voucher &&
+//@     seqEq(step(s, NewVoucherResult, v).Vouchers, s.Vouchers)
+//@ lemma [only-voucher-events-touch-logs] {C19}: foreach E in (*) except (NewVoucher, NewVoucherResult) :: forall s State ::
+//@     seqEq(step(s, E).Vouchers, s.Vouchers) && seqEq(step(s, E).VoucherResults, s.VoucherResults)
+
+// ---------------------------------------------------------------------------------------------
+// Accounting (C07) and data limits (C08): FSM actions, caches, progress events
+
+//@ lemma [totals-max] {C07}: forall s State, n int64 ::
+//@     step(s, DataReceived, n).ReceivedBlocksTotal == ((applied(s, DataReceived, n) && n > s.ReceivedBlocksTotal) ? n : s.ReceivedBlocksTotal) &&
+//@     step(s, DataSent, n).SentBlocksTotal == ((applied(s, DataSent, n) && n > s.SentBlocksTotal) ? n : s.SentBlocksTotal) &&
+//@     step(s, DataQueued, n).QueuedBlocksTotal == ((applied(s, DataQueued, n) && n > s.QueuedBlocksTotal) ? n : s.QueuedBlocksTotal)
+//@ lemma [progress-adds] {C07,C08}: forall s State, d uint64 ::
+//@     step(s, DataReceivedProgress, d).Received == (applied(s, DataReceivedProgress, d) ? (s.Received + d) % 18446744073709551616 : s.Received) &&
+//@     step(s, DataSentProgress, d).Sent == (applied(s, DataSentProgress, d) ? (s.Sent + d) % 18446744073709551616 : s.Sent) &&
+//@     step(s, DataQueuedProgress, d).Queued == (applied(s, DataQueuedProgress, d) ? (s.Queued + d) % 18446744073709551616 : s.Queued)
+//@ lemma [progress-only-while-transferring] {C07}: foreach E in (DataReceivedProgress, DataSentProgress, DataQueuedProgress) :: forall s State ::
+//@     applied(s, E) ==> (s.Status == datatransfer.Ongoing || s.Status == datatransfer.ResponderCompleted ||
+//@         s.Status == datatransfer.ResponderFinalizing || s.Status == datatransfer.AwaitingAcceptance)
+//@ lemma [counters-touched-only-by-their-event] {C07}: foreach E in (*) :: forall s State ::
+//@     (E != DataReceivedProgress ==> step(s, E).Received == s.Received) && (E != DataSentProgress ==> step(s, E).Sent == s.Sent) &&
+//@     (E != DataQueuedProgress ==> step(s, E).Queued == s.Queued) && (E != DataReceived ==> step(s, E).ReceivedBlocksTotal == s.ReceivedBlocksTotal) &&
+//@     (E != DataSent ==> step(s, E).SentBlocksTotal == s.SentBlocksTotal) && (E != DataQueued ==> step(s, E).QueuedBlocksTotal == s.QueuedBlocksTotal)
+//@ lemma [totals-never-decrease] {C07}: foreach E in (*) :: forall s State ::
+//@     step(s, E).ReceivedBlocksTotal >= s.ReceivedBlocksTotal && step(s, E).SentBlocksTotal >= s.SentBlocksTotal &&
+//@     step(s, E).QueuedBlocksTotal >= s.QueuedBlocksTotal
+//@ lemma [limit-events] {C08}: forall s State, l uint64 ::
+//@     step(s, SetDataLimit, l).DataLimit == (applied(s, SetDataLimit, l) ? l : s.DataLimit) &&
+//@     (applied(s, DataLimitExceeded) ==> step(s, DataLimitExceeded).ResponderPaused && step(s, DataLimitExceeded).InitiatorPaused == s.InitiatorPaused)
+//@ lemma [limit-touched-only-by-its-event] {C08}: foreach E in (*) except (SetDataLimit) :: forall s State :: step(s, E).DataLimit == s.DataLimit
+
+//@ func (*channels.blockIndexCache).getValue {C07,C20}
+//@   requires readFromOriginal != nil
+//@   modifies bic.values
+//@   ensures [hit] old(has(bic.values, cacheKey{evt: evt, chid: chid})) && old(bic.values[cacheKey{evt: evt, chid: chid}]) != nil ==>
+//@       err == nil && result0 == old(bic.values[cacheKey{evt: evt, chid: chid}]) && untouched
+//@   ensures [seeded] calls(dyn.readIndexFn) == 1 && ret(dyn.readIndexFn, 1) == nil ==>
+//@       err == nil && result0 != nil && *result0 == ret(dyn.readIndexFn, 0) && arg(dyn.readIndexFn, 1) == chid &&
+//@       bic.values[cacheKey{evt: evt, chid: chid}] == result0
+//@   ensures [read-failure] calls(dyn.readIndexFn) == 1 && ret(dyn.readIndexFn, 1) != nil ==> err != nil && result0 == nil
+//@   ensures [nonnil] err == nil ==> result0 != nil
+//@   ensures [at-most-one-read] calls(dyn.readIndexFn) <= 1
+
+//@ func (*channels.blockIndexCache).updateIfGreater {C07}
+//@   requires readFromOriginal != nil
+//@   modifies bic.values
+//@   ensures [advance] calls(blockIndexCache.getValue) == 1 && ret(blockIndexCache.getValue, 1) == nil ==>
+//@       err == nil && result0 == (newIndex > old(*ret(blockIndexCache.getValue, 0))) &&
+//@       *ret(blockIndexCache.getValue, 0) == max(old(*ret(blockIndexCache.getValue, 0)), newIndex)
+//@   ensures [failure] ret(blockIndexCache.getValue, 1) != nil ==> err != nil && !result0
+//@   ensures [same-key] called(blockIndexCache.getValue, _, evt, chid, _)
